@@ -24,7 +24,11 @@ EvResult == /\ E.t = "result" /\ UNCHANGED got
             /\ bad' = bad \cup Flag("C06_Result", /\ (E.relay = "ok") <=> (E.edge_code >= 200 /\ E.edge_code < 300)
                                                   /\ (E.relay = "ok" => got)
                                                   /\ (E.relay \in {"T", "P"} => E.relay_code = E.edge_code)
-                                                  /\ E.relay # "other")
+                                                  /\ E.relay # "other"
+                                                  \* per recipient: the relay reports what the edge answered to that RCPT
+                                                  /\ (E.per # <<>> /\ Len(E.per) = Len(E.edge_per)) =>
+                                                        \A k \in 1..Len(E.per) : (E.edge_per[k] # 250 => E.per[k] = E.edge_per[k])
+                                                                                  /\ (E.edge_per[k] = 250 => E.per[k] \div 100 = E.edge_code \div 100))
 Next == /\ l <= Len(Tr) /\ (EvGot \/ EvExt \/ EvResult) /\ l' = l + 1 /\ UNCHANGED tid
 Spec == Init /\ [][Next]_vars
 AtEnd == l = Len(Tr) + 1
